@@ -194,6 +194,13 @@ def run(ctx):
         one_case(ctx, rep, corr, c, L[c.name], v, trig, "corpus", rng, fixed_features=ff)
     for comps in batches(G.enum_struct_offsets(), 24):
         run_doc(ctx, rep, corr, comps, "enum-struct-offsets", rng, 2)
+    # TABLE-KEYs in every arrangement (row from the PDU / static row = no bits; with / without TABLE-STRUCT; neighbours), fixed values
+    tk_vals, tk_comps = {}, []
+    for c, v in G.enum_table_keys():
+        tk_vals[c.name] = [v]
+        tk_comps.append(c)
+    for comps in batches(iter(tk_comps), 24):
+        run_doc(ctx, rep, corr, comps, "enum-table-keys", rng, 0, values_of=lambda c: tk_vals[c.name])
     vrng = ctx.sub_rng("enum")
     bitlens = range(1, 65) if big else sorted(set(V.BIAS_LENGTHS + [2, 3, 5, 12, 24, 40]))
     for comps in batches(G.enum_std_numeric(bitlens, range(8), types=("A_UINT32", "A_INT32") if big else ("A_UINT32",)), 64):
